@@ -64,7 +64,7 @@ def run_case(case):
     e = K.catalogue()[cls]
     kind = e["kind"]
     make = e["variants"][case["variant"]]
-    nd = 5 if kind in ("reg", "clf", "cluster", "poly", "nmf", "recip") else (3 if kind == "ts" else 2)
+    nd = 5 if kind in ("reg", "clf", "cluster", "poly", "nmf", "recip") else (3 if kind in ("ts", "cat") else 2)
     D = [K.data(kind, i) for i in range(nd)]
 
     fresh = {}
